@@ -1638,7 +1638,7 @@ class ReferenceSearchingAccessor(PhysicalAccessor[T_co]):
             return self
 
         matches: list[etree._Element] = []
-        for candidate in obj._model.search(*self.target_classes):
+        for candidate in obj._model.search(*self.__candidate_types()):
             for attr in self.attrs:
                 try:
                     value = attr(candidate)
@@ -1653,6 +1653,18 @@ class ReferenceSearchingAccessor(PhysicalAccessor[T_co]):
                     matches.append(candidate._element)
                     break
         return self._make_list(obj, matches)
+
+    def __candidate_types(self) -> list[str | type[_obj.ModelObject]]:
+        """Find the types to search: the target classes and their subclasses."""
+        types: list[str | type[_obj.ModelObject]] = list(self.target_classes)
+        if types:
+            types.extend(
+                xtype
+                for xtype, cls in _xtype.XTYPE_HANDLERS[None].items()
+                if issubclass(cls, self.target_classes)
+                and cls not in self.target_classes
+            )
+        return types
 
 
 class TypecastAccessor(WritableAccessor[T_co], PhysicalAccessor[T_co]):
